@@ -187,6 +187,12 @@ fn opt_real(tok: &str) -> Option<String> {
     }
 }
 
+/// scripts travel as JSON strings (the script alphabet needs no escaping), so that contracts built
+/// with `ContractWrapper` (which deserialises its message) can run them too
+fn json_str(text: &str) -> Vec<u8> {
+    format!("\"{}\"", text).into_bytes()
+}
+
 /// MSG s-expression → CosmosMsg (None if malformed)
 pub fn to_msg(m: &Sx) -> Option<CosmosMsg> {
     let l = m.list();
@@ -194,13 +200,13 @@ pub fn to_msg(m: &Sx) -> Option<CosmosMsg> {
     Some(match head {
         "exec" => WasmMsg::Execute {
             contract_addr: real(l.get(1)?.atom()),
-            msg: Binary::from(l.get(2)?.print().into_bytes()),
+            msg: Binary::from(json_str(&l.get(2)?.print())),
             funds: parse_coins(l.get(3)?.atom()),
         }
         .into(),
         "inst" => {
             let code_id: u64 = l.get(1)?.atom().parse().ok()?;
-            let msg = Binary::from(l.get(2)?.print().into_bytes());
+            let msg = Binary::from(json_str(&l.get(2)?.print()));
             let funds = parse_coins(l.get(3)?.atom());
             let label = pdec(l.get(4)?.atom());
             let admin = opt_real(l.get(5)?.atom());
@@ -212,7 +218,7 @@ pub fn to_msg(m: &Sx) -> Option<CosmosMsg> {
         "mig" => WasmMsg::Migrate {
             contract_addr: real(l.get(1)?.atom()),
             new_code_id: l.get(2)?.atom().parse().ok()?,
-            msg: Binary::from(l.get(3)?.print().into_bytes()),
+            msg: Binary::from(json_str(&l.get(3)?.print())),
         }
         .into(),
         "upd" => WasmMsg::UpdateAdmin { contract_addr: real(l.get(1)?.atom()), admin: real(l.get(2)?.atom()) }.into(),
@@ -459,6 +465,40 @@ impl Contract<Empty> for Scripted {
 }
 
 // ------------------------------------------------------------------------------------------------
+// the same scripted behaviour packaged the way users write contracts: plain functions over the
+// `Empty` message type, lifted by `ContractWrapper::new_with_empty` / `with_*_empty`
+
+const WTAG: &str = "W";
+
+fn w_exec(deps: DepsMut, env: Env, info: MessageInfo, msg: String) -> AnyResult<Response> {
+    Scripted { tag: WTAG.into() }.run(deps, env, "execute", Some(&info), msg, "-".into())
+}
+fn w_inst(deps: DepsMut, env: Env, info: MessageInfo, msg: String) -> AnyResult<Response> {
+    Scripted { tag: WTAG.into() }.run(deps, env, "instantiate", Some(&info), msg, "-".into())
+}
+fn w_query(deps: Deps, env: Env, msg: String) -> AnyResult<Binary> {
+    Scripted { tag: WTAG.into() }.query(deps, env, json_str(&msg))
+}
+fn w_sudo(deps: DepsMut, env: Env, msg: String) -> AnyResult<Response> {
+    Scripted { tag: WTAG.into() }.run(deps, env, "sudo", None, msg, "-".into())
+}
+fn w_migrate(deps: DepsMut, env: Env, msg: String) -> AnyResult<Response> {
+    Scripted { tag: WTAG.into() }.run(deps, env, "migrate", None, msg, "-".into())
+}
+fn w_reply(deps: DepsMut, env: Env, msg: Reply) -> AnyResult<Response> {
+    Scripted { tag: WTAG.into() }.reply(deps, env, msg)
+}
+
+pub fn wrapped_contract() -> Box<dyn Contract<Empty>> {
+    Box::new(
+        cw_multi_test::ContractWrapper::new_with_empty(w_exec, w_inst, w_query)
+            .with_sudo_empty(w_sudo)
+            .with_reply_empty(w_reply)
+            .with_migrate_empty(w_migrate),
+    )
+}
+
+// ------------------------------------------------------------------------------------------------
 // address computation for `bind`
 
 pub fn classic_addr(app: &App, code_id: u64, instance: u64) -> String {
@@ -652,6 +692,7 @@ fn exec_wasm_on<A: Api>(mut apps: Vec<AppOf<A>>, sym_fn: fn(&AppOf<A>, &str) -> 
                 let tag = a(1).to_string();
                 outcome(guarded(|| Ok(app.store_code(Box::new(Scripted { tag })))), |id| format!("id {}", id))
             }
+            "store-w" => outcome(guarded(|| Ok(app.store_code(wrapped_contract()))), |id| format!("id {}", id)),
             "store-as" => {
                 let (c, tag) = (Addr::unchecked(real(a(1))), a(2).to_string());
                 outcome(guarded(|| Ok(app.store_code_with_creator(c, Box::new(Scripted { tag })))), |id| format!("id {}", id))
@@ -711,7 +752,7 @@ fn exec_wasm_on<A: Api>(mut apps: Vec<AppOf<A>>, sym_fn: fn(&AppOf<A>, &str) -> 
             "sudo-wasm" => {
                 let m = SudoMsg::Wasm(WasmSudo {
                     contract_addr: Addr::unchecked(real(a(1))),
-                    message: Binary::from(items.get(2).map(|x| x.print()).unwrap_or_default().into_bytes()),
+                    message: Binary::from(json_str(&items.get(2).map(|x| x.print()).unwrap_or_default())),
                 });
                 outcome(guarded(|| app.sudo(m)), |r| format!("ok {}", fmt_resp(&r)))
             }
